@@ -85,7 +85,7 @@ func (r Rng) strided(w Win, b ID) (ID, bool) {
 			moved = true
 		}
 	}
-	if !moved {
+	if !moved || abs64(id.X) >= 1<<28 || abs64(id.Y) >= 1<<28 || abs64(id.F) >= 1<<28 {
 		return b, false
 	}
 	if w.Abs {
